@@ -171,6 +171,20 @@ func c07Scenarios(tier string) []e1lib.Scenario {
 			}
 		}
 	}
+	// more failures than any fixed number a logger or an error buffer could be sized for (explored up to one deviation)
+	for _, k := range []int{40, 80, 140} {
+		all := 0
+		for x := 1; x <= k && x < 62; x++ {
+			all |= 1 << x
+		}
+		for _, st := range []string{"map", "fmap"} {
+			for _, rd := range []string{"stderr", "reader"} {
+				c := stage.Cfg{Stage: st, Mode: "try", K: k, Cap: 0, Mask: all, FailFrom: 62, ErrRd: rd, Stop: -1}
+				out = append(out, e1lib.Scenario{Name: stageName(c) + " deviations<=1", Root: func() { stage.Scenario(c) }, Check: c07Check(c), Bound: 1, Deviations: true, Sample: c,
+					Nontrivial: func(outcomes, execs, states int) bool { return execs > 1 }})
+			}
+		}
+	}
 	// Emit over indices 0..3, Unfold over seeds 1..4
 	for cp := 0; cp <= 2; cp++ {
 		for _, rd := range []string{"reader", "stderr"} {
